@@ -708,6 +708,13 @@ func (engine *Engine) AddConnNonTLSNonBlocking(conn *Conn, tlsConfig *tls.Config
 	}
 
 	engine.mux.Lock()
+	if engine.shutdown {
+		// Stop/Shutdown has already swept engine.conns: nobody would close this one.
+		engine.mux.Unlock()
+		_ = nbc.Close()
+		decrease()
+		return
+	}
 	if len(engine.conns) >= engine.MaxLoad {
 		engine.mux.Unlock()
 		_ = nbc.Close()
@@ -741,6 +748,13 @@ func (engine *Engine) AddConnNonTLSNonBlocking(conn *Conn, tlsConfig *tls.Config
 //go:norace
 func (engine *Engine) AddConnNonTLSBlocking(conn *Conn, tlsConfig *tls.Config, decrease func()) {
 	engine.mux.Lock()
+	if engine.shutdown {
+		// Stop/Shutdown has already swept engine.conns: nobody would close this one.
+		engine.mux.Unlock()
+		_ = conn.Close()
+		decrease()
+		return
+	}
 	if len(engine.conns) >= engine.MaxLoad {
 		engine.mux.Unlock()
 		_ = conn.Close()
@@ -803,6 +817,13 @@ func (engine *Engine) AddConnTLSNonBlocking(conn *Conn, tlsConfig *tls.Config, d
 	}
 
 	engine.mux.Lock()
+	if engine.shutdown {
+		// Stop/Shutdown has already swept engine.conns: nobody would close this one.
+		engine.mux.Unlock()
+		_ = nbc.Close()
+		decrease()
+		return
+	}
 	if len(engine.conns) >= engine.MaxLoad {
 		engine.mux.Unlock()
 		_ = nbc.Close()
@@ -844,6 +865,13 @@ func (engine *Engine) AddConnTLSNonBlocking(conn *Conn, tlsConfig *tls.Config, d
 //go:norace
 func (engine *Engine) AddConnTLSBlocking(conn *Conn, tlsConfig *tls.Config, decrease func()) {
 	engine.mux.Lock()
+	if engine.shutdown {
+		// Stop/Shutdown has already swept engine.conns: nobody would close this one.
+		engine.mux.Unlock()
+		_ = conn.Close()
+		decrease()
+		return
+	}
 	if len(engine.conns) >= engine.MaxLoad {
 		engine.mux.Unlock()
 		_ = conn.Close()
